@@ -48,6 +48,7 @@ def gated(v):
 REBIND = {"c06corpus": {"SCALE": 5.0}, "c06corpus2": {"GAIN": 3.0, "OFFSET": -2.0}}
 
 CORPUS_SRC = '''
+import functools
 import math
 
 import c06corpus2
@@ -405,6 +406,139 @@ def chain_gt_eq_ne(a, b, c):
     return 2.0
 
 
+# ---- name resolution: the same name bound differently in two scopes ------------------------------------------
+def gain(v):             # module-level callable named like c06corpus2.gain
+    return v - 100.0
+
+
+def exp(v):              # module-level callable named like math.exp
+    return v * 3.0
+
+
+def module_callable_direct(x):
+    return gain(x) + exp(x)
+
+
+def import_shadows_callable(x):
+    from c06corpus2 import gain
+
+    return gain(x)
+
+
+def import_shadows_library_callable(x):
+    from math import exp
+
+    return exp(0.0) + x
+
+
+def import_alias_callable(x):
+    from c06corpus2 import gated as gain
+
+    return gain(x) + 1.0
+
+
+def import_alias_callable_helper(x):
+    from c06corpus2 import gated as helper
+
+    return helper(x)
+
+
+def import_alias_constant(x):
+    from c06corpus2 import OFFSET as SCALE
+
+    return x * SCALE
+
+
+def import_alias_pi(x):
+    from math import pi as leak
+
+    return x * leak
+
+
+def import_module_alias(x):
+    import c06corpus2 as math
+
+    return math.gain(x) * math.GAIN
+
+
+def make_closure_rate():
+    SCALE = 0.5
+
+    def closure_rate(s):
+        return s * SCALE
+
+    return closure_rate
+
+
+closure_rate = make_closure_rate()
+
+
+def make_closure_call():
+    def helper(a, b):
+        return a * b
+
+    k = 3
+
+    def closure_call(s, drain):
+        return helper(s, drain) + k
+
+    return closure_call
+
+
+closure_call = make_closure_call()
+
+
+class P:
+    k = 1.0
+
+    def __init__(self):
+        self.k = 2.0
+
+
+pinst = P()
+
+
+def class_attribute(x):
+    return x * P.k
+
+
+def instance_attribute(x):
+    return x * pinst.k
+
+
+def double(g):
+    @functools.wraps(g)
+    def w(*a):
+        return 2 * g(*a)
+
+    return w
+
+
+def same(g):
+    return g
+
+
+@double
+def decorated(s, k):
+    return s * k
+
+
+@same
+def decorated_identity(s, k):
+    return s * k + 1.0
+
+
+def _plain_rate(s, k):
+    return s - k
+
+
+wrapped_without_syntax = double(_plain_rate)
+
+
+def calls_decorated(s, k):
+    return decorated(s, k) + 1.0
+
+
 def early_none(x):
     if x > 1:
         return x
@@ -663,7 +797,8 @@ def oracle_pass(ctx: Ctx, rep: Report, fns: list, phase: str, min_encoded: int) 
                 if case["obs"][j] == render.to_json_value(render.SKIP):
                     # not exactly representable: numeric comparison of the float evaluation with TLC's value
                     rejected = not (agrees(raw[j][1], q["v"]) or agrees(sym_value(expr, raw[j][0], exact=False), q["v"]))
-                elif rejected and agrees(sym_value(expr, raw[j][0], exact=False), q["v"]):
+                elif rejected and (agrees(sym_value(expr, raw[j][0], exact=False), q["v"])
+                                   or agrees(sym_value(expr, raw[j][0], exact="snap"), q["v"])):
                     rejected = False       # the float evaluation agrees: rationalising the Floats moved a boundary
                 if rejected:
                     bad.append({"point": [str(x) for x in meta[cid]["pts"][j]], "expected": str(q["v"]),
